@@ -311,8 +311,12 @@ def run(ck):
         w = where(rf, pa.node)
         seqs = [x for x in T.subterms(a.get("correlation")) if x[0] == "app" and x[1].endswith("OpticalMap.getSequence")]
         gens = {dict(x[3]).get("sequenceGenerator") for x in seqs}
-        ck.judge(gens == {gen}, "C16.2", short(rf) + ":one-generator", w, "query and reference vectors come from one generator",
-                 found=str([T.show(g) for g in gens]))
+        corr = a.get("correlation")
+        nothing_to_refine = not seqs and corr is not None and corr[0] == "call" and corr[1] in ("numpy.array", "numpy.zeros", "numpy.empty") \
+            and (not corr[2] or corr[2][0] in (("list", ()), C(0)))
+        if not nothing_to_refine:      # (a path that hands back an empty correlation - no label in the window - has no vectors)
+            ck.judge(gens == {gen}, "C16.2", short(rf) + ":one-generator", w, "query and reference vectors come from one generator",
+                     found=str([T.show(g) for g in gens]))
         ck.judge(a.get("resolution") == T.mk_attr(gen, "resolution"), "C16.2", short(rf) + ":resolution", w,
                  "peak creation gets the secondary generator's resolution", found=T.show(a.get("resolution", C(None))),
                  required="sequenceGenerator.resolution")
